@@ -30,6 +30,9 @@
 //!        real: peel_payment_onion (create_fwd_pending_htlc_info) at every forwarding hop of CONCATENATED blinded paths
 //!        (first path through the hook blinded_hops_raw with TLV 8 on its last hop, second path BlindedPaymentPath::new)
 //!   fwdchain <first path key> <n> (<override|none> <derived>)*  → what every tail hop recorded (model: relayBlinded)
+//!   blame <code> <is_final> <update_ok>  → scid=<none|self|next> perm=<0|1>   real: the sender's decode of every failure chain
+//!   inbfail <update_add has blinding point 0|1> <hmac|blindedcheck> <code>  → malformed <code> | relay   (GENERATED inboundFailure)
+//!        real: peel_payment_onion of a tail hop of the concatenated paths on a corrupted onion / violated payment constraints
 //!   blinded section: real BlindedPaymentPath::new / one_hop recipients (0..3 blinded forwarding nodes), keysend,
 //!        invoice_request, custom TLV types drawn below / between / above 77_777 and 5482373484 (odd and even)
 //! ECDH and ephemeral-key blinding are TRUSTED: the ephemeral keys stay on the Rust side, the
@@ -697,14 +700,35 @@ fn concat_section(ctx: &Ctx, rng: &mut Rng, rec: &mut Rec, thorough: bool, scale
 			Ok(Err(e)) => { rec.oracle_fail(format!("create_payment_onion refused {}: {:?}", what, e)); continue; },
 			Ok(Ok((o, a, c))) => { if a != in_amt[0] || c != in_cltv[0] { rec.oracle_fail(format!("first-hop amount/cltv {}/{} expected {}/{} ({})", a, c, in_amt[0], in_cltv[0], what)); } o },
 		};
+		// 1 route in 5 (without a constraint violation): one tail hop receives the onion with one bit flipped
+		let corrupt_at: Option<usize> = if viol.is_none() && r % 5 == 2 { Some(rng.below(nf as u64 + 1) as usize) } else { None };
 		// ---- every hop peels with its own node key; the blinding point is handed on as channelmanager does ----------
 		let mut cur = onion; let mut blinding: Option<PublicKey> = None; let mut expect_key = first_point;
-		let mut chain_op = format!("fwdchain {} {}", hex(&first_point.serialize()), nf); let mut chain_ans: Vec<String> = vec![]; let mut complete = false; let mut rejected = false;
+		let mut chain_op = format!("fwdchain {} {}", hex(&first_point.serialize()), nf); let mut chain_ans: Vec<String> = vec![]; let mut complete = false; let mut rejected = false; let mut corrupted = false;
 		for j in 0..n {
 			let last = j == n - 1;
+			let corrupt_here = j + 1 >= u && corrupt_at == Some(j + 1 - u);
+			if corrupt_here { let bit = rng.below(8 * L as u64) as usize; flip(&mut cur.hop_data, bit); }
 			let msg = UpdateAddHTLC { channel_id: ChannelId([0; 32]), htlc_id: 0, amount_msat: in_amt[j], payment_hash: hash, cltv_expiry: in_cltv[j], skimmed_fee_msat: None, onion_routing_packet: cur.clone(), blinding_point: blinding, hold_htlc: None, accountable: None };
 			let cur_height = if last { in_cltv[j] - 55 } else { in_cltv[j + 1] - 10 };
 			let res = guarded(AssertUnwindSafe(|| peel_payment_onion(&msg, &ctx.kms[order[j]], &NullLogger, &ctx.secp, cur_height, false).map_err(|e| format!("{} ({})", reason_name(&e.reason), e.msg))));
+			// decode_incoming_update_add_htlc_onion's failure side against the GENERATED inboundFailure (peel_payment_onion shows a malformed
+			// answer by its reason and a relayed failure packet as InvalidOnionPayload / "Failed to decode update add htlc onion")
+			let shown = |e: &str| if e.starts_with("InvalidOnionBlinding") { "malformed 49176".to_string() } else if e.starts_with("BadHmac") { "malformed 49157".to_string() } else if e.starts_with("BadPayload (Failed to decode update add htlc onion") { "relay".to_string() } else { format!("other {}", e) };
+			if corrupt_here {
+				match &res {
+					Ok(Err(e)) => {
+						// THE PROPERTY: a hop inside a blinded path never reveals a non-blinded failure code
+						if blinding.is_some() && !e.starts_with("InvalidOnionBlinding") { rec.oracle_fail(format!("onion hop {} INSIDE the blinded path of {} answered a corrupted onion with {} instead of invalid_onion_blinding", j, what, e)); }
+						rec.case(&format!("inbfail {} hmac 49157", blinding.is_some() as u8), &shown(e), if blinding.is_some() { "inbfail:corrupt:inside" } else { "inbfail:corrupt:intro" }, true);
+						corrupted = true;
+					},
+					Ok(Ok(_)) => rec.oracle_fail(format!("onion hop {} of {} accepted an onion with a flipped bit", j, what)),
+					Err(p) => rec.oracle_fail(format!("hop {} panicked on a corrupted onion ({}): {}", j, what, p)),
+				}
+				break;
+			}
+			if let (Ok(Err(e)), Some((t, _))) = (&res, viol) { if u - 1 + t == j && !last { rec.case(&format!("inbfail {} blindedcheck 0", blinding.is_some() as u8), &shown(e), if blinding.is_some() { "inbfail:constraints:inside" } else { "inbfail:constraints:intro" }, true); } }
 			let info = match res {
 				Err(p) => { rec.oracle_fail(format!("hop {} panicked while peeling ({}): {}", j, what, p)); break; },
 				Ok(Err(e)) => {
@@ -753,7 +777,7 @@ fn concat_section(ctx: &Ctx, rng: &mut Rng, rec: &mut Rec, thorough: bool, scale
 			}
 		}
 		if chain_ans.len() == nf { chain_ans.push(format!("final={}", pt(&blinding))); rec.case(&chain_op, &chain_ans.join(" | "), &format!("fwdchain:{}", if !joined { "single-path".into() } else { format!("joined-at-{}", if p1 == 1 { "intro" } else { "inside" }) }), true); }
-		*rec.classes.entry(format!("concat:{}:{}", if !joined { "single" } else if p1 == 1 { "override-at-intro" } else { "override-inside" }, if complete { "delivered".to_string() } else if rejected { format!("constraint-violation-rejected:{}:{}", if viol.unwrap().1 { "amount" } else { "expiry" }, if viol.unwrap().0 == nf { "recipient" } else { "forwarder" }) } else { "NOT-delivered".into() })).or_insert(0) += 1;
+		*rec.classes.entry(format!("concat:{}:{}", if !joined { "single" } else if p1 == 1 { "override-at-intro" } else { "override-inside" }, if complete { "delivered".to_string() } else if rejected { format!("constraint-violation-rejected:{}:{}", if viol.unwrap().1 { "amount" } else { "expiry" }, if viol.unwrap().0 == nf { "recipient" } else { "forwarder" }) } else if corrupted { "corrupted-onion-rejected".into() } else { "NOT-delivered".into() })).or_insert(0) += 1;
 	}
 }
 
@@ -1019,6 +1043,12 @@ fn main() {
 				rec.oracle_fail(format!("failure from non-final hop {} of {} (code {:#x}) names no channel at all: the sender learns nothing about the failing hop", k, n, code));
 			}
 			if k + 1 < n && dec.payment_failed_permanently { rec.oracle_fail(format!("failure from non-final hop {} of {} (code {:#x}) fails the payment permanently", k, n, code)); }
+			// the blame decision itself against the GENERATED blameDecision (codes whose UPDATE branch is reached depend on the data framing: skipped)
+			if dec.onion_error_code == Some(code) && !(code & 0xE000 == 0 && code & 0x1000 != 0) {
+				let sc = match dec.short_channel_id { None => "none", Some(s) => match c.path.hops.iter().position(|h| h.short_channel_id == s) { Some(p) if p == k => "self", Some(p) if p == k + 1 => "next", _ => "other" } };
+				rec.case(&format!("blame {} {} 0", code, (k + 1 == n) as u8), &format!("scid={} perm={}", sc, dec.payment_failed_permanently as u8),
+					&format!("blame:{}:{}{}", if k + 1 == n { "final" } else { "relay" }, if code & 0x8000 != 0 { "badonion" } else if code & 0x2000 != 0 { "node" } else if code & 0x4000 != 0 { "perm" } else { "plain" }, if [0x400f, 18, 19, 23].contains(&code) { ":recipient-only" } else { "" }), true);
+			}
 			holds.truncate(20);
 			if !big_data && dec.hold_times != holds { rec.oracle_fail(format!("failure from hop {} of {}: hold times reported {:?}, hops set {:?}", k, n, dec.hold_times, holds)); }
 			if with_attr {
